@@ -19,7 +19,7 @@ open Ford
     modules, submodules, procedures, programs, block data, each with its order -
     exactly as if the file were absent. -/
 theorem contained (k : Nat) (f : Str) (e : Err) (good : List (Str × Except Err FileTree)) :
-    (loadAll true (insertAt k (f, .error e) good)).reg = (loadAll true good).reg := by
+    (loadAll true (insertFileAt k (f, .error e) good)).reg = (loadAll true good).reg := by
   unfold loadAll
   rw [loadFrom_reg_filter, filter_insertAt_error, ← loadFrom_reg_filter]
 
@@ -60,15 +60,15 @@ theorem abort_without_dbg_witness :
     one of the project without it. -/
 theorem project_contained (cfg : Cfg) (hd : cfg.dbg = true) (k : Nat) (f : Str) (bad : Src)
     (hbad : (srcOutcome cfg bad).isSkipped = true) (good : List (Str × Src)) :
-    (loadProject cfg (insertAt k (f, bad) good)).reg = (loadProject cfg good).reg := by
+    (loadProject cfg (insertFileAt k (f, bad) good)).reg = (loadProject cfg good).reg := by
   unfold loadProject
   rw [hd]
   cases hso : srcOutcome cfg bad with
   | registered p r => simp [hso, Outcome.isSkipped] at hbad
   | skipped e r =>
-    have : (insertAt k (f, bad) good).map (fun f => (f.1, toLoad (srcOutcome cfg f.2)))
-        = insertAt k (f, .error e) (good.map (fun f => (f.1, toLoad (srcOutcome cfg f.2)))) := by
-      simp [insertAt, List.map_take, List.map_drop, hso, toLoad]
+    have : (insertFileAt k (f, bad) good).map (fun f => (f.1, toLoad (srcOutcome cfg f.2)))
+        = insertFileAt k (f, .error e) (good.map (fun f => (f.1, toLoad (srcOutcome cfg f.2)))) := by
+      simp [insertFileAt, List.map_take, List.map_drop, hso, toLoad]
     rw [this]
     exact contained k f e _
 
@@ -133,7 +133,7 @@ theorem undecodable_and_reader_errors_rejected (cfg : Cfg) :
 theorem reader_error_contained (cfg : Cfg) (hd : cfg.dbg = true) (k : Nat) (f : Str) (m : Marks)
     (classify : List Str → List Stmt) (lines : List Str) (e : RErr)
     (h : readAll m lines = .error e) (good : List (Str × Src)) :
-    (loadProject cfg (insertAt k (f, srcOfLines m classify lines) good)).reg = (loadProject cfg good).reg :=
+    (loadProject cfg (insertFileAt k (f, srcOfLines m classify lines) good)).reg = (loadProject cfg good).reg :=
   project_contained cfg hd k f _ (by simp [srcOfLines, h, srcOutcome, Outcome.isSkipped]) good
 
 /-! ## never hangs -/
